@@ -8,16 +8,18 @@
     with the independent Python lexer (lib/vf/lex_oracle.py) which is the executable statement applied to the driver.
 """
 import enum, itertools, json, os, threading
-from vf import core, lex_gen
+from vf import core, lex_gen, lex_export
 from vf import lex_oracle as LO
 
 META = {
     'technique': 'Coq proof (induction over code-point lists) about a CQL3 lexer and a mirror of the driver escaping functions; '
                  'constants regenerated from source; exhaustive small-scope + random correspondence',
-    'level_text': 'C27_quoted / C27_unquoted_ok / C27_protect_name(s) / C27_string / C27_protect_value / C27_use_keyspace proved for '
+    'level_text': 'C27_quoted / C27_unquoted_ok / C27_protect_name(s) / C27_string / C27_protect_value / C27_use_keyspace / C27_name_list / '
+                  'C27_edge_export / C27_index_options proved for '
                   'every list of code points; reserved words, regex classes/anchor and USE escaping regenerated from the working tree; '
                   'model and lexer tied to the real functions exhaustively over strings <= 3 (quick) / 4 (thorough) chars of an '
-                  'adversarial alphabet plus keyword and random streams.',
+                  'adversarial alphabet plus keyword and random streams; every schema-export producer of cassandra/metadata.py driven slot by '
+                  'slot with a hostile pool (differential token-stream oracle, AST audit of the producers).',
     'level_note': 'Trusted: Coq kernel; transcription of Cassandra Lexer.g (IDENT, QUOTED_NAME, STRING_LITERAL, INTEGER) -- the empty '
                   'quoted name is accepted (permissive reading); reserved = the driver table (DESIGN 4.0); lex_gen regex/AST reader; '
                   'str.lower modelled exactly on ASCII only (argued equivalent for is_valid_name in docs/C27.md).',
@@ -247,6 +249,103 @@ def names(ctx, reserved, unreserved):
     return ex, extra + kw + targeted + rnd, maxlen
 
 
+EXPORT_PRELUDE = '''
+Fixpoint tok_eqb (a b : tok) : bool :=
+  match a, b with
+  | TId x, TId y => str_eqb x y | TKw x, TKw y => str_eqb x y | TStrLit x, TStrLit y => str_eqb x y
+  | TNum x, TNum y => x =? y | TP x, TP y => x =? y | _, _ => false
+  end.
+Fixpoint toks_eqb (a b : list tok) : bool :=
+  match a, b with [], [] => true | x :: a', y :: b' => tok_eqb x y && toks_eqb a' b' | _, _ => false end.
+Definition otoks_eqb (a b : option (list tok)) : bool :=
+  match a, b with Some x, Some y => toks_eqb x y | None, None => true | _, _ => false end.
+(* the Coq tokenizer against the Python twin on a statement the driver produced *)
+Definition chkt (stmt : str) (pt : option (list tok)) : bool := otoks_eqb (tokenize_all stmt) pt.
+(* the model of the producers against the implementation *)
+Definition chke (kw label : str) (pks ccs : list str) (out : str) : bool := str_eqb (export_edge kw label pks ccs) out.
+Definition chkm (kvs : list (str * str)) (out : str) : bool := str_eqb (string_map kvs) out.
+Definition chkn (ns : list str) (out : str) : bool := str_eqb (names_joined ns) out.
+'''
+
+
+def export_pool(ctx, others):
+    rng = ctx.rng
+    pool = ['', 'Ab', 'select', 'from', 'to', "it's", "''", "'", 'a"b', '"', 'a b', '1a', '_a', 'a\n', 'é', '\U0001d11e', 'nan', 'key',
+            'a"; DROP KEYSPACE "b', "x' OR 1=1 --", 'MixedCase', 'with space', 'ok_name', 'a\u0663', '\u212a', 'a.b', 'a,b', 'a)b', '$$', ';']
+    pool += [''.join(t) for k in (1, 2) for t in itertools.product(ALPHABET, repeat=k)]
+    pool += ALPHABET2
+    pool += rng.sample(others, min(len(others), 60 if ctx.tier == 'quick' else 600))
+    seen, out = set(), []
+    for x in pool:
+        if x not in seen:
+            seen.add(x)
+            out.append(x)
+    return out
+
+
+def export_sweep(ctx, MD, reserved, others):
+    """drives every slot with the hostile pool; returns Coq correspondence cases"""
+    P = lex_export.producers(MD)
+    inv, probs = lex_export.audit(core.REPO, P.keys())
+    ctx.extra['export_producers'] = {'slots': len(P), 'methods_scanned': inv}
+    if probs:
+        ctx.proof_broken.append(('export-audit', '; '.join(probs)[:1200]))
+    ctx.trust('lex_export: hand-built metadata objects per slot; differential token-stream oracle (placeholder vs hostile text); '
+              'AST audit that every printing producer method of cassandra/metadata.py is driven by a slot')
+    pool = export_pool(ctx, others)
+    cases = []
+    for name, (kind, fn) in P.items():
+        try:
+            base_stmt = fn(lex_export.PH)
+            base = lex_export.tokenize(base_stmt, reserved)
+        except Exception as e:
+            ctx.proof_broken.append(('export-harness:' + name, repr(e)[:300]))
+            continue
+        nbad = 0
+        for text in pool:
+            if text == '' and name in lex_export.EMPTY_MEANS_ABSENT:
+                continue
+            try:
+                r = lex_export.judge_slot(kind, fn, text, reserved, base)
+            except Exception as e:
+                r = ('raises', repr(e)[:200], '')
+            ctx.count('export_slot_kind', kind)
+            ctx.case(['export', name, [ord(c) for c in text]], nontrivial=nontrivial(text))
+            if r is not None and nbad < 3:
+                nbad += 1
+                ctx.violation('export.%s.%s' % (name, r[0]), '%s with %r in the slot: %s; statement %r' % (name, text, r[1], r[2][:300]),
+                              case={'fn': 'export', 'slot': name, 'arg': [ord(c) for c in text]}, expected='the slot reads back as %r' % text,
+                              actual=r[2][:1000], theorem='Props/C27.v')
+        # Coq tokenizer vs twin on some produced statements
+        for text in ctx.rng.sample(pool, 4):
+            try:
+                stmt = fn(text)
+            except Exception:
+                continue
+            if len(stmt) < 700:
+                cases.append('chkt %s %s' % (LO.zstr(stmt), lex_export.toks_lit(lex_export.tokenize(stmt, reserved))))
+    # the modelled producers against the implementation
+    names_pool = [p for p in pool if len(p) < 30]
+    for _ in range(60 if ctx.tier == 'quick' else 600):
+        label = ctx.rng.choice(names_pool)
+        pks = [ctx.rng.choice(names_pool) for _ in range(ctx.rng.choice([0, 1, 1, 2, 3]))]
+        ccs = [ctx.rng.choice(names_pool) for _ in range(ctx.rng.choice([0, 0, 1, 2]))]
+        kw = ctx.rng.choice(['FROM', 'TO'])
+        out = MD.TableMetadataDSE68._export_edge_as_cql(label, pks, ccs, kw)
+        cases.append('chke %s %s %s %s %s' % (LO.zstr(kw), LO.zstr(label), '[' + '; '.join(map(LO.zstr, pks)) + ']',
+                                              '[' + '; '.join(map(LO.zstr, ccs)) + ']', LO.zstr(out)))
+        kvs = [(ctx.rng.choice(names_pool), ctx.rng.choice(names_pool)) for _ in range(ctx.rng.choice([0, 1, 2, 3]))]
+        d = dict((k, v) for k, v in kvs if k not in ('target', 'class_name'))
+        if d:       # as IndexMetadata.as_cql_query renders the extra options of a CUSTOM index
+            idx = MD.IndexMetadata('ks1', 't1', 'i1', 'CUSTOM', dict([('target', 'v1'), ('class_name', 'org.C')] + list(d.items())))
+            out = idx.as_cql_query().split(' WITH OPTIONS = ', 1)[-1]
+        else:
+            out = MD._encoder.cql_encode_all_types(d, as_text_type=True)
+        cases.append('chkm [%s] %s' % ('; '.join('(%s, %s)' % (LO.zstr(k), LO.zstr(v)) for k, v in d.items()), LO.zstr(out)))
+        cases.append('chkn [%s] %s' % ('; '.join(map(LO.zstr, pks)), LO.zstr(', '.join(MD.protect_names(pks)))))
+    return cases
+
+
 def load_corpus():
     d = os.path.join(core.VERIF, 'corpus', 'C27')
     out = []
@@ -316,6 +415,10 @@ def run(ctx):
                              case={'arg': [ord(c) for c in n]}, actual=out)
         cases.append(coq_case(n, out, reserved))
         meta.append((n, out))
+    # ---- schema export: every as_cql_query / export_as_string producer of cassandra/metadata.py, slot by slot
+    export_cases = export_sweep(ctx, MD, reserved, others)
+    cases += export_cases
+    meta += [('export', {})] * len(export_cases)
     # protect_value on non-strings
     from cassandra.metadata import protect_value
     for v in [None, True, False, 0, -1, 7, 10, -10, 2**63, -2**63 - 1, 10**30, 99, 100, 101, -999]:
@@ -339,12 +442,16 @@ def run(ctx):
     import time
     ctx.extra['python_phase_s'] = round(time.time() - ctx.t0, 1)
     try:
-        bad = ctx.coq_filter(['CqlKeywords', 'CqlLex'], '(fun b : bool => b)', cases, prelude=CHK_PRELUDE)
+        bad = ctx.coq_filter(['CqlKeywords', 'CqlLex'], '(fun b : bool => b)', cases, prelude=CHK_PRELUDE + EXPORT_PRELUDE)
     except RuntimeError as e:
         ctx.proof_broken.append(('correspondence:CqlLex', str(e)[-800:]))
         return
     for i in bad[:10]:
         n, out = meta[i]
+        if n == 'export':
+            ctx.disagreement('model-vs-impl.export', 'Coq tokenizer / export model differs from the implementation or the Python twin: %s' % cases[i][:400],
+                             case=None, actual=None, model=cases[i][:2000])
+            continue
         ctx.disagreement('model-vs-impl', 'Model/CqlLex.v (driver mirror or lexer) differs from the implementation / Python lexer at %r: impl %r'
                          % (n, out), case={'arg': [ord(c) for c in n]}, actual=out, model=cases[i][:2000])
 
@@ -352,6 +459,13 @@ def run(ctx):
 def replay(ctx, rp):
     from cassandra import metadata as MD
     case = rp.get('case')
+    if case and case.get('fn') == 'export':
+        text = ''.join(chr(c) for c in case['arg'])
+        kind, fn = lex_export.producers(MD)[case['slot']]
+        r = lex_export.judge_slot(kind, fn, text, LO.lexer_reserved(MD.cql_keywords_reserved))
+        print('replay: %s with %r in the slot -> %r : %s' % (case['slot'], text, fn(text)[:400], 'reads back' if r is None else '%s (%s)' % r[:2]))
+        print(('VIOLATION property=C27 replay=%s' % ctx.replay_path) if r else 'not reproduced')
+        return 1 if r else 0
     if not case or not isinstance(case.get('arg'), list):
         print('nothing to replay (kind=%s): %s' % (rp.get('kind'), rp.get('theorem')))
         return 1
